@@ -1,12 +1,13 @@
 ------------------------------- MODULE Quoting -------------------------------
 (* C18.  (1) Go string-literal quoting over an abstract alphabet: a n t (letters), Q ("), S ('), B (`),
-   K (backslash), N (newline), E (a 2-byte rune).  Quote is strconv.Quote restricted to the alphabet,
+   K (backslash), N (newline), E (a 2-byte rune), F (slash).  Quote is strconv.Quote restricted to the alphabet,
    UnquoteIntended what participle.Unquote must compute: interpreted strings and single-quoted sequences
    with escape processing, back-quoted strings verbatim, invalid escape -> error.
    (2) The token-mapper pipeline: which mapper sees which token, in which order.                   *)
 EXTENDS Integers, Sequences, FiniteSets, TLC
 
-Content == {"a", "n", "Q", "S", "B", "K", "N", "E", "R"}     \* R = U+FFFD, a VALID rune that looks like a decoding error
+Content == {"a", "n", "Q", "S", "B", "K", "N", "E", "R", "F"}  \* R = U+FFFD, a VALID rune that looks like a decoding error; F = "/"
+                                                               \* (backslash-slash is NOT an escape of Go literals)
 
 RECURSIVE QuoteBody(_, _, _)
 QuoteBody(x, i, q) ==  \* strconv.Quote / QuoteRune escapes restricted to the alphabet; q = the quote symbol
